@@ -70,6 +70,10 @@ func evalParamFuncW(w *World, fn *ssa.Function, k constant.Value, other bool) ([
 		return nil, false
 	}
 	param := ssa.Value(fn.Params[0])
+	// a thin delegation (`return policy.Valid()`): the function that does the deciding
+	if h := thinDelegate1(w, fn); h != nil {
+		return evalParamFuncW(w, h, k, other)
+	}
 	// lookupEntry: v is (an extract of) a lookup of the parameter in a frozen map literal
 	lookupEntry := func(v ssa.Value) (val ssa.Value, found, ok bool) {
 		if w == nil {
@@ -641,12 +645,20 @@ func (w *World) fmLookups(m *finiteMap) []fmLookup {
 
 // fmLookupOf: v is the value or the found flag of a lookup in m; returns that lookup.
 func (w *World) fmLookupOf(m *finiteMap, v ssa.Value) *fmLookup {
-	v = throughCell(strip(v))
-	for _, l := range w.fmLookups(m) {
-		if (l.OK != nil && l.OK == v) || (l.Val != nil && l.Val == v) {
-			ll := l
-			return &ll
+	for hop := 0; hop < 3 && v != nil; hop++ {
+		v = throughCell(strip(v))
+		for _, l := range w.fmLookups(m) {
+			if (l.OK != nil && l.OK == v) || (l.Val != nil && l.Val == v) {
+				ll := l
+				return &ll
+			}
 		}
+		// handed back by a lookup helper (entry, error): what it returns on success
+		_, h, idx := w.asCallResult(v)
+		if h == nil || !w.transparent(h) || errorResultIndex(h) == idx {
+			return nil
+		}
+		v = w.successValue(h, idx)
 	}
 	return nil
 }
@@ -879,4 +891,29 @@ func (w *World) arrayLiteralEntries(g *ssa.Global) (map[int64]ssa.Value, int64, 
 		}
 	}
 	return out, arr.Len(), true
+}
+
+// thinDelegate1: the one-parameter function fn only returns h(<its parameter>) for a repository function h: h (nil otherwise).
+func thinDelegate1(w *World, fn *ssa.Function) *ssa.Function {
+	if fn == nil || len(fn.Blocks) != 1 || len(fn.Params) != 1 {
+		return nil
+	}
+	param := ssa.Value(fn.Params[0])
+	var only *ssa.Call
+	n := 0
+	for _, ins := range fn.Blocks[0].Instrs {
+		if cv, ok := ins.(*ssa.Call); ok {
+			only = cv
+			n++
+		}
+	}
+	ret, ok := fn.Blocks[0].Instrs[len(fn.Blocks[0].Instrs)-1].(*ssa.Return)
+	if !ok || n != 1 || len(ret.Results) != 1 || ret.Results[0] != ssa.Value(only) || len(only.Call.Args) != 1 || !isParamView(only.Call.Args[0], param) {
+		return nil
+	}
+	h := only.Call.StaticCallee()
+	if h == nil || h == fn || len(h.Blocks) == 0 || len(h.Params) != 1 || (w != nil && !w.InRepo(h)) {
+		return nil
+	}
+	return h
 }
